@@ -38,7 +38,9 @@ def e2e_term(c):
     gets = g.lst(["(%s, %s)" % (hx(x["label"]), gobs(x)) for x in c.get("gets", [])])
     patches = g.lst(["(%s, %s, %s)" % (hx(p["enc"]), "None" if p["recode"] is None else "(Some %s)" % hx(p["recode"]), pobs(p["obs"]))
                      for p in c.get("patches", [])])
-    return "mkE %s %s %s %s %s %s" % (recs, hx(c["text"]), asis, post, gets, patches)
+    pre = g.lst(["(%s, %s)" % (g.lst([g.lst([fld(f) for f in r]) for r in h["csv"]]), g.lst([hx(l) for l in h["labels"]]))
+                 for h in c.get("pre", [])])
+    return "mkE %s %s %s %s %s %s %s" % (pre, recs, hx(c["text"]), asis, post, gets, patches)
 
 
 def run(ctx):
@@ -67,7 +69,6 @@ def run(ctx):
         body = g.HEADER + IMPORTS
         body += "Definition cases : list fld := [\n  " + ";\n  ".join(fld(c) for c in shard) + "\n].\n"
         body += "Definition M := Eval vm_compute in gmismatches cases.\nPrint M.\n"
-        body += "Definition NS := Eval vm_compute in (count_stable cases, count_modelled cases).\nPrint NS.\n"
         idx = ctx.correspondence("cases_C13_gocast_%d" % si, body, ncases=len(shard))
         nshards += 1
         if idx:
@@ -98,7 +99,10 @@ def run(ctx):
                 "(2) end to end through the REAL SummaryMarshaler and the REAL engine Mux (httptest, scenario fixture ValidTestScenario.toml, 13 actions): "
                 "summaries with real values/encodings of random action sets (steered towards d+Ed+, F, all-decimal encodings), the single-objective "
                 "shape (As-Is + Optimised), one summary per encoding class, synthetic rows with arbitrary text over [0-9A-F:] in the Actions column, "
-                "and malformed relatives (wrong as-is values, first row not As-Is, non-hex encoding, boolean note, duplicate labels); for every "
+                "the former D9 / stale-pool refutation witnesses as positive regression cases (1E3, F, 1E0, 1000000, 9E9, 0012; summaries re-posted "
+                "on one engine with re-used labels after every label had been fetched), "
+                "and malformed relatives (wrong as-is values, first row not As-Is, non-hex encoding, boolean note, duplicate labels, a variable "
+                "column missing, an unknown variable column); for every "
                 "summary: POST status, GET of every label (+ an unknown one, + one repeated), PATCH /model with every row's encoding. "
                 "distinct_nontrivial = distinct strings in (1) + distinct accepted summaries in (2)" % (3 if ctx.tier == "quick" else 4),
         "exhaustive": True,
